@@ -38,7 +38,7 @@ class RefEngine:
         self.registry: list[dict] = []  # user events in creation order
         self.crashed: set[int] = set()
         self.log: list[tuple] = []  # (uid, step, time_ns)
-        self.now = 0
+        self.now = prog.get("start", 0)      # Simulation(start_time=...): the clock begins here
         self.processed = 0
         self.cancelled_popped = 0
         self.discarded_past = 0
